@@ -175,6 +175,13 @@ def history_case(ctx, idx, rng):
     pool = gen.OID_POOLS[int(rng.integers(0, len(gen.OID_POOLS)))]
     ctx.pool = pool
     g = gen.rand_graph(rng, L, idbase=int(rng.integers(0, 4)), maxw=4 if rng.random() < 0.3 else 3, nops=3, charges=charges, pool=pool)
+    near = idx % 5 == 2
+    if near:
+        # coefficients that agree to 6..12 digits without being equal (a tolerance-based operator comparison would merge distinct edges);
+        # polynomials are then compared to 1e-12 of the largest coefficient instead of exactly
+        for e in g.edges.values():
+            e.opics = [(o, c * (1 + float(rng.choice([0, 1e-12, -1e-9, 1e-7, 1e-6, -3e-6, 3e-6, 8e-6])))) for o, c in e.opics]
+    same = (lambda a, b: refs.poly_close(a, b, 1e-12)) if near else (lambda a, b: a == b)
     poly, depth = refs.graph_poly(g)
     hist = []
     nsteps = int(rng.integers(1, 9))
@@ -187,11 +194,11 @@ def history_case(ctx, idx, rng):
             raise CaseAbort()
         got, dep = refs.graph_poly(g)
         ctx.ok('rewrite.length-kept', dep == L and g.length == L, f'after {hist[-1]}: length {g.length}', detail)
-        if not ctx.ok('rewrite.polynomial', got == exp, f'after {hist[-1]}: graph denotes {dict(list(got.items())[:4])}..., expected {dict(list(exp.items())[:4])}...', detail):
+        if not ctx.ok('rewrite.polynomial', same(got, exp), f'after {hist[-1]}: graph denotes {dict(list(got.items())[:4])}..., expected {dict(list(exp.items())[:4])}...', detail):
             raise CaseAbort()
         poly = exp
         ctx.event('rewrite:' + hist[-1].split('-')[0])
-    ctx.case(('rewrites', f'L{min(L, 4)}', 'charged' if charges else 'uncharged', 'ids-default' if pool is None else f'ids{pool}') + tuple(hist), nontrivial=len(hist) >= 1,
+    ctx.case(('rewrites', f'L{min(L, 4)}', 'charged' if charges else 'uncharged', 'near-equal-coefficients' if near else 'dyadic-coefficients', 'ids-default' if pool is None else f'ids{pool}') + tuple(hist), nontrivial=len(hist) >= 1,
              sample={'L': L, 'history': hist})
 
 
